@@ -45,6 +45,8 @@ def stream(file=sys.stdout):
             if failures:
                 raise failures[0]
             file.write('\n')
+            # nothing stays buffered: an abandoned run must not write into the file of a retry later on
+            file.flush()
         file.close()
         if filename:
             os.rename(filename, filename[:-len(ACTIVE_SUFFIX)])
